@@ -779,3 +779,6 @@ PROPS["C12"]["runs"].append(
 PROPS["C17"]["runs"].append(
     dict(name="a peer that is temporarily unreachable gets every accepted message once its listener is up", dir="net", files=["net_c17.go.txt", "net_model.go.txt"], entry="verifH_C17_late_listener", args=_NET_ARGS17, replay_args=_NET_REPLAY,
          count=["assert:C17-", "panic:", "deadlock:"], expect_covers=["end"], bounds={"refused connection attempts": "0..2 (symbolic), then the peer is there", "messages": 3}))
+PROPS["C10"]["runs"].append(
+    _ps("verifH_C10_ps_verify_resized", ["ps_c10b.go.txt", "ps_c10.go.txt"], name="ps.Verifier.Verify: a genuine proof re-encoded with a vector of the wrong length (natively replayable twin of the havoc run)", count=["panic:", "deadlock:", "assert:C10-"], covers=["rejected", "returned"],
+        bounds={"vector": "the outer data vector (0, 4, 6 elements) or the inner response vector (0, n-1, n+1) (symbolic)", "rest": "as the prover made it"}))
